@@ -618,6 +618,12 @@ impl ZchState {
 }
 
 fn type_osc(osc: OsCode, kb: &mut KbdOut, zchd: &ZchDynamicState) -> Result<(), std::io::Error> {
+    // The reserved no-op codes (nop0..nop9) are never sent to the OS: same rule as
+    // press_key / release_key in output_logic.rs, which this typed output does not go through
+    // (an output-character-mappings entry can name a nop key).
+    if (KEY_IGNORE_MIN..=KEY_IGNORE_MAX).contains(&u16::from(osc)) {
+        return Ok(());
+    }
     if zchd.zchd_input_keys.zchik_contains(osc) {
         kb.release_key(osc)?;
         kb.press_key(osc)?;
